@@ -126,6 +126,20 @@ def ackermannize(fs):
 
 
 _NL_CACHE = {}
+_SIMP_CACHE = {}
+
+
+def _simp(f):
+    """z3.simplify with a cache: puts hypotheses and goals into the same normal form (argument order of products,
+    sums), so that identical nonlinear terms are recognised as identical by the linear abstraction"""
+    k = f.get_id()
+    hit = _SIMP_CACHE.get(k)
+    if hit is None:
+        if len(_SIMP_CACHE) > 50000:
+            _SIMP_CACHE.clear()
+        hit = (f, z3.simplify(f))
+        _SIMP_CACHE[k] = hit
+    return hit[1]
 
 
 def _nonlinear_nodes(f):
@@ -169,21 +183,30 @@ def _nonlinear_nodes(f):
 
 
 def _linear_abstraction(pc, g, timeout_ms):
-    """Sound for proving: every nonlinear product/quotient becomes an opaque constant (identical terms share it).
-    Discharges the obligations that follow by matching hypotheses (most frame/invariant VCs) very quickly."""
-    nodes = {}
-    for f in list(pc) + [g]:
-        for e in _nonlinear_nodes(f):
-            nodes[e.get_id()] = e
-    if not nodes:
-        return None
-    subs = [(e, z3.Real(f"nl!{k}")) for k, e in enumerate(nodes.values())]
+    """Sound for proving: z3 with nonlinear arithmetic lemmas switched off treats every nonlinear product/quotient
+    as an opaque term.  Discharges the obligations that follow by matching hypotheses (most frame/invariant VCs)
+    quickly; anything but `unsat` means 'not decided here'."""
     s = z3.Solver()
+    s.set("smt.arith.nl", False)
     s.set("timeout", timeout_ms)
-    s.add(z3.substitute(z3.And(*pc, z3.Not(g)), *subs))
+    s.add(*pc)
+    s.add(z3.Not(g))
     if hard_check(s, timeout_ms) == z3.unsat:
-        return dict(status="discharged", backend="z3-5.1(linear-abstraction)", model=None)
+        return dict(status="discharged", backend="z3-5.1(arith.nl=false)", model=None)
     return None
+
+
+def quick_linear(pc, g, timeout_ms):
+    """discharged-by-matching attempt only (no nonlinear reasoning); None if it does not succeed"""
+    gs = z3.simplify(g)
+    if z3.is_true(gs):
+        return dict(status="discharged", backend="z3-simplify", model=None, time_s=0.0)
+    t0 = time.time()
+    la = _linear_abstraction(pc, gs, max(1000, timeout_ms // 4))
+    if la is None:
+        return None
+    la["time_s"] = time.time() - t0
+    return la
 
 
 def _nlsat(pc, g, inputs, timeout_ms):
@@ -222,7 +245,7 @@ def discharge(pc, goal, inputs, timeout_ms=10000, fallbacks=True):
     g = z3.simplify(goal)
     if z3.is_true(g):
         return dict(status="discharged", backend="z3-simplify", time_s=time.time() - t0, model=None)
-    if len(pc) > 60:
+    if len(pc) > 30:
         la = _linear_abstraction(pc, g, max(500, timeout_ms // 4))
         if la is not None:
             la["time_s"] = time.time() - t0
